@@ -41,7 +41,7 @@ def run(rep, tier, seed):
     try:
         if tier == 'quick':
             rc.check('recChk', rec_consts(3, MaxRuns=2), invariants=['TypeOK', 'ReplayFaithful', 'SameOutputs', 'IdleClean'])
-            rc.generate('recMutate', rec_consts(3, InCalls=[('ia1', 1)], OutAliases=['oa1'], Vals=['v1'], Ctl=['mutate']),
+            rc.generate('recMutate', rec_consts(3, InCalls=[('ia1', 1), ('ia2', 2), ('ia2', 1)], OutAliases=['oa1', 'oa2'], Vals=['v1'], Ctl=['mutate']),
                         cassettes=('memory', 'file', 's3'), n_conc=2, sample=3000, cap=5000)
             rc.generate('recData', rec_consts(2, MaxRuns=2, Ctl=['mutate', 'data', 'playdata']), cassettes=('memory',), n_conc=1,
                         sample=2500, cap=4000)
